@@ -1170,7 +1170,9 @@ func runScenario(sc *sScenario, out *hx.Out, seed int64, tlsSrv, tlsCli *tls.Con
 	}
 	cfgJSON, _ := json.Marshal(sc.Cfg)
 	gldap.SetVerifGate(func(point string, ids ...int) {
-		if point == "run.registered" || point == "run.accepted" || point == "write.locked" || point == "stop.cancelled" {
+		// (write.locked is counted only where the runner waits for it: taking the runner's lock inside gldap's Write orders
+		// that Write after everything any goroutine logged before - which hides races from the race detector, C15-m1)
+		if point == "run.registered" || point == "run.accepted" || point == "stop.cancelled" || (point == "write.locked" && sc.Cfg["wait_write_blocked"] == "1") {
 			r.mu.Lock()
 			r.gates[point]++
 			r.cond.Broadcast()
